@@ -276,7 +276,7 @@ def run_result(case, seed, cap):
                 if np.abs(Mi - Ms[i]).max() > tol(Ms[i]):
                     return fail(f"smoother:{sm_name(sm)}:kernel", f"{desc}: {what}: axis {i} smoother differs from the "
                                 f"normalised-kernel reference by {np.abs(Mi - Ms[i]).max()}", nmix >= 1)
-            return fail("smoother:axis", f"{desc}: {what}: composed real smoothers differ from the reference kernels applied "
+            return fail("smoother:differs_from_reference", f"{desc}: {what}: composed real smoothers differ from the reference kernels applied "
                         f"along each axis by {np.abs(fw - ref).max()} although every 1D kernel matches", nmix >= 1)
         if np.abs(got - ref).max() > t:
             return fail(classify(raw, got), f"{desc}: {what}: dataSmooth deviates from the composition of the axis "
